@@ -714,14 +714,108 @@ func headerPuts(p *Prog, fn *ssa.Function) (buf ssa.Value, slots []codeSlot, pro
 		}
 		// a narrowing conversion on the way changes the quantity
 		plainWidth := true
-		if c, ok := val.(*ssa.Convert); ok && isIntLike(c.X.Type()) && isIntLike(c.Type()) && intSize(c.Type()) < intSize(c.X.Type()) {
-			plainWidth = false
+		// (narrowing to the slot's own width is what the slot is; narrower than that loses bytes)
+		for cv := val; ; {
+			c, ok := cv.(*ssa.Convert)
+			if !ok {
+				break
+			}
+			if isIntLike(c.X.Type()) && isIntLike(c.Type()) && intSize(c.Type()) < intSize(c.X.Type()) && intSize(c.Type()) < int64(size) {
+				plainWidth = false
+			}
+			cv = c.X
 		}
 		prov, plain := provenance(v, fn.Params[0])
 		slots = append(slots, codeSlot{off, size, isFloat, prov, plain && plainWidth, in})
 	})
 	if buf == nil {
 		return nil, nil, nil
+	}
+	// single bytes stored at constant indices: `h[0], h[1] = byte(x), byte(x>>8)` is one
+	// little-endian slot of x; a lone byte is a one-byte slot
+	type byteSt struct {
+		val ssa.Value
+		in  ssa.Instruction
+	}
+	bytesAt := map[int]byteSt{}
+	Instrs(fn, func(in ssa.Instruction) {
+		st, ok := in.(*ssa.Store)
+		if !ok {
+			return
+		}
+		ia, ok := st.Addr.(*ssa.IndexAddr)
+		if !ok || ia.X != buf {
+			return
+		}
+		k, isC := constInt(ia.Index)
+		if !isC {
+			problems = append(problems, "a header byte is written at a computed offset at "+p.InstrPos(in))
+			return
+		}
+		if _, dup := bytesAt[int(k)]; dup || InLoop(in) {
+			problems = append(problems, "a header byte is written more than once or inside a loop at "+p.InstrPos(in))
+			return
+		}
+		bytesAt[int(k)] = byteSt{st.Val, in}
+	})
+	var offs []int
+	for o := range bytesAt {
+		offs = append(offs, o)
+	}
+	sort.Ints(offs)
+	// byteOf: v = byte(x >> 8*n) (n = 0 without the shift)
+	byteOf := func(v ssa.Value) (x ssa.Value, n int, ok bool) {
+		c, isC := v.(*ssa.Convert)
+		if !isC || !isIntLike(c.X.Type()) || intSize(c.X.Type()) < 2 {
+			return nil, 0, false
+		}
+		if sh, isSh := c.X.(*ssa.BinOp); isSh && sh.Op == token.SHR {
+			if k, isK := constInt(sh.Y); isK && k%8 == 0 {
+				return sh.X, int(k / 8), true
+			}
+			return nil, 0, false
+		}
+		return c.X, 0, true
+	}
+	used := map[int]bool{}
+	for _, o := range offs {
+		if used[o] {
+			continue
+		}
+		b0 := bytesAt[o]
+		x, n, isPart := byteOf(b0.val)
+		size := 1
+		if isPart && n == 0 {
+			for {
+				nb, has := bytesAt[o+size]
+				if !has {
+					break
+				}
+				x2, n2, ok2 := byteOf(nb.val)
+				same := x2 == x
+				if !same && ok2 {
+					// no common-subexpression form in SSA: two loads of the same field
+					p1, pl1 := provenance(x, fn.Params[0])
+					p2, pl2 := provenance(x2, fn.Params[0])
+					same = p1 != "" && p1 == p2 && pl1 && pl2
+				}
+				if !ok2 || !same || n2 != size {
+					break
+				}
+				used[o+size] = true
+				size++
+			}
+		}
+		if size > 1 {
+			prov, plain := provenance(x, fn.Params[0])
+			slots = append(slots, codeSlot{o, size, false, prov, plain, b0.in})
+			continue
+		}
+		prov, plain := provenance(b0.val, fn.Params[0])
+		if c, isC := b0.val.(*ssa.Convert); isC && isIntLike(c.X.Type()) && intSize(c.X.Type()) > 1 {
+			plain = false // one byte of a wider quantity on its own
+		}
+		slots = append(slots, codeSlot{o, 1, false, prov, plain, b0.in})
 	}
 	// a buffer that starts as a copy of a package-level array (preset bytes) and is patched byte by
 	// byte: the bytes the Put calls do not write are not extracted
